@@ -392,6 +392,45 @@ func checkPacketLayouts(prog *core.Program, r2, r5 *core.RuleRun) {
 				}
 			})
 			r5.Check(int(guard) == want, name+":guard", fn.Pos(), fmt.Sprintf("rejects fewer than %d octets", want), fmt.Sprintf("length guard is %d, the header has %d octets", guard, want))
+		} else {
+			// a decoder with an open tail (ICMP: type, code, rest of header): the guard is exactly what its own reads
+			// need - the highest fixed index + 1, and one octet of the tail b[k:]
+			need, guard := int64(0), int64(-1)
+			allInstrs(fn, func(ins ssa.Instruction) {
+				switch x := ins.(type) {
+				case *ssa.IndexAddr:
+					if isByteSlice(x.X.Type()) {
+						if k, ok := ssaConstInt(x.Index); ok && k+1 > need {
+							need = k + 1
+						}
+					}
+				case *ssa.Slice:
+					if isByteSlice(x.X.Type()) && x.Low != nil {
+						if k, ok := ssaConstInt(x.Low); ok && x.High == nil && k+1 > need {
+							need = k + 1
+						}
+					}
+					if isByteSlice(x.X.Type()) && x.High != nil {
+						if k, ok := ssaConstInt(x.High); ok && k > need {
+							need = k
+						}
+					}
+				case *ssa.BinOp:
+					if x.Op == token.LSS {
+						if c, ok := x.X.(*ssa.Call); ok {
+							if bi, ok := c.Common().Value.(*ssa.Builtin); ok && bi.Name() == "len" {
+								if k, ok := ssaConstInt(x.Y); ok {
+									guard = k
+								}
+							}
+						}
+					}
+				}
+			})
+			if guard >= 0 && need > 0 {
+				r5.Check(guard == need, name+":guard", fn.Pos(), fmt.Sprintf("rejects fewer than %d octets, exactly what its reads need", need),
+					fmt.Sprintf("length guard is %d but the decoder's own reads need %d octets: a sampled header that ends inside this layer is rejected (and with it the whole datagram) although it can be decoded, or read past its end", guard, need))
+			}
 		}
 	}
 	// advance amounts in the packet walker: after L3 by header length, after L4 by 4/20/8
